@@ -345,54 +345,113 @@ Qed.
 
 Lemma try_rlocks_from_facts : forall ls t g done t0 b t',
   TInv t -> NoDup (map fst done ++ ls) ->
-  (forall l p, In (l, p) done -> gst (t l) g = Shared /\ p = gst (t0 l) g /\ (p = Exclusive -> forall h, h <> g -> gst (t l) h = Unlocked)) ->
+  (forall l p, In (l, p) done -> gst (t l) g = Shared /\ p = gst (t0 l) g /\ p <> Exclusive) ->
   (forall l, ~ In l (map fst done) -> gst (t l) g = gst (t0 l) g) ->
   (forall l h, h <> g -> gst (t l) h = gst (t0 l) h) ->
   try_rlocks_from t g ls done = Some (b, t') ->
   TInv t' /\ (forall l h, h <> g -> gst (t' l) h = gst (t0 l) h) /\
-  (b = false -> forall l h, gst (t' l) h = gst (t0 l) h).
+  (b = false -> forall l h, gst (t' l) h = gst (t0 l) h) /\
+  (b = true -> forall l, gst (t' l) g = if gstate_eqb (gst (t0 l) g) Exclusive then Exclusive
+                                      else if in_dec lk_eq_dec l (map fst done ++ ls) then Shared else gst (t0 l) g).
 Proof.
   assert (Hres : forall t g done t0,
-             (forall l p, In (l, p) done -> gst (t l) g = Shared /\ p = gst (t0 l) g /\ (p = Exclusive -> forall h, h <> g -> gst (t l) h = Unlocked)) ->
+             (forall l p, In (l, p) done -> gst (t l) g = Shared /\ p = gst (t0 l) g /\ p <> Exclusive) ->
              forall l p, In (l, p) done -> Restorable t g l p /\ p = gst (t0 l) g).
   { intros t g done t0 H l p Hin. destruct (H l p Hin) as [Hs [Hp Hx]]. split; [|assumption]. unfold Restorable.
-    destruct p; [right; left; reflexivity|left; assumption|right; right; right; auto]. }
+    destruct p; [right; left; reflexivity|left; assumption|congruence]. }
   induction ls as [|l r IH]; intros t g done t0 b t' HT Hnd H1 H2 H3 H; cbn [try_rlocks_from] in H.
-  - inversion H; subst. split; [assumption|]. split; [assumption|]. discriminate.
-  - destruct (tryrlock_facts t l g HT) as [bb [t1 [E [HT1 [Ho [Hh [Ht Hf]]]]]]]. rewrite E in H.
-    assert (Hl : ~ In l (map fst done)) by (intros Hi; apply (nodup_app_disj _ _ l Hnd Hi); left; reflexivity).
-    assert (Hd : forall l' p, In (l', p) done -> l' <> l).
-    { intros l' p Hin ->. apply Hl. apply in_map_iff. exists (l, p). auto. }
-    assert (H3' : forall l' h, h <> g -> gst (t1 l') h = gst (t0 l') h).
-    { intros l' h Hne. rewrite <- H3 by assumption. destruct (lk_eq_dec l' l) as [->|Hn]; [apply Hh; assumption|rewrite Ho by assumption; reflexivity]. }
-    destruct bb.
-    + apply (IH t1 g (done ++ [(l, gst (t l) g)]) t0 b t' HT1); try assumption.
-      * rewrite map_app. cbn [map fst]. rewrite <- app_assoc. exact Hnd.
-      * intros l' p Hin. apply in_app_iff in Hin. destruct Hin as [Hin|[Heq|[]]].
-        -- rewrite (Ho l' (Hd l' p Hin)). apply H1. assumption.
-        -- inversion Heq; subst. split; [apply Ht; reflexivity|]. split; [apply H2; assumption|].
-           intros Hx h Hne. rewrite (Hh h Hne). apply (excl_alone (t l') g (HT l') Hx h Hne).
-      * intros l' Hn. rewrite map_app, in_app_iff in Hn. cbn [map fst In] in Hn.
-        assert (l' <> l) as Hne by (intros ->; tauto). rewrite (Ho l' Hne). apply H2. tauto.
-    + assert (H1' : forall l' p, In (l', p) done -> gst (t1 l') g = Shared /\ p = gst (t0 l') g /\ (p = Exclusive -> forall h, h <> g -> gst (t1 l') h = Unlocked)).
-      { intros l' p Hin. rewrite (Ho l' (Hd l' p Hin)). apply H1. assumption. }
-      assert (H2' : forall l', ~ In l' (map fst done) -> gst (t1 l') g = gst (t0 l') g).
-      { intros l' Hn. destruct (lk_eq_dec l' l) as [->|Hne]; [rewrite (proj1 (Hf eq_refl)); apply H2; assumption|rewrite (Ho l' Hne); apply H2; assumption]. }
-      destruct (refuse_facts t1 g done t0 (b, t') Shared HT1 (nodup_app_l _ _ Hnd) (Hres _ _ _ _ H1') H2' H3' H) as [Hb [HT' Hall]].
-      cbn [fst snd] in *. split; [assumption|]. split; [intros; apply Hall|intros _; exact Hall].
+  - inversion H; subst. split; [assumption|]. split; [assumption|]. split; [discriminate|]. intros _ l. rewrite app_nil_r.
+    destruct (in_dec lk_eq_dec l (map fst done)) as [Hi|Hi].
+    + apply in_map_iff in Hi. destruct Hi as [[l' p] [El Hi]]. cbn in El. subst l'. destruct (H1 l p Hi) as [Hs [Hp Hx]].
+      rewrite <- Hp. destruct p; cbn [gstate_eqb]; congruence.
+    + rewrite (H2 l Hi). destruct (gst (t0 l) g); reflexivity.
+  - assert (Hl : ~ In l (map fst done)) by (intros Hi; apply (nodup_app_disj _ _ l Hnd Hi); left; reflexivity).
+    destruct (gstate_eqb (gst (t l) g) Exclusive) eqn:Ex.
+    + apply gstate_eqb_eq in Ex.
+      destruct (IH t g done t0 b t' HT (NoDup_remove_1 _ _ _ Hnd) H1 H2 H3 H) as [A [B [C D]]].
+      split; [assumption|]. split; [assumption|]. split; [assumption|]. intros Hb l'. rewrite (D Hb l').
+      destruct (gstate_eqb (gst (t0 l') g) Exclusive) eqn:E0; [reflexivity|].
+      destruct (in_dec lk_eq_dec l' (map fst done ++ r)) as [Hi|Hi], (in_dec lk_eq_dec l' (map fst done ++ l :: r)) as [Hj|Hj]; try reflexivity.
+      * exfalso. apply Hj. apply in_app_iff in Hi. apply in_app_iff. destruct Hi; [left|right; right]; assumption.
+      * apply in_app_iff in Hj. destruct Hj as [Hj|[->|Hj]]; [exfalso; apply Hi, in_app_iff; tauto| |exfalso; apply Hi, in_app_iff; tauto].
+        rewrite <- (H2 l' Hl), Ex in E0. discriminate.
+    + assert (Hnx : gst (t l) g <> Exclusive) by (intros E; apply gstate_eqb_eq in E; congruence).
+      destruct (tryrlock_facts t l g HT) as [bb [t1 [E [HT1 [Ho [Hh [Ht Hf]]]]]]]. rewrite E in H.
+      assert (Hd : forall l' p, In (l', p) done -> l' <> l).
+      { intros l' p Hin ->. apply Hl. apply in_map_iff. exists (l, p). auto. }
+      assert (H3' : forall l' h, h <> g -> gst (t1 l') h = gst (t0 l') h).
+      { intros l' h Hne. rewrite <- H3 by assumption. destruct (lk_eq_dec l' l) as [->|Hn]; [apply Hh; assumption|rewrite Ho by assumption; reflexivity]. }
+      destruct bb.
+      * destruct (IH t1 g (done ++ [(l, gst (t l) g)]) t0 b t' HT1) as [A [B [C D]]]; try assumption.
+        -- rewrite map_app. cbn [map fst]. rewrite <- app_assoc. exact Hnd.
+        -- intros l' p Hin. apply in_app_iff in Hin. destruct Hin as [Hin|[Heq|[]]].
+           ++ rewrite (Ho l' (Hd l' p Hin)). apply H1. assumption.
+           ++ inversion Heq; subst. split; [apply Ht; reflexivity|]. split; [apply H2; assumption|assumption].
+        -- intros l' Hn. rewrite map_app, in_app_iff in Hn. cbn [map fst In] in Hn.
+           assert (l' <> l) as Hne by (intros ->; tauto). rewrite (Ho l' Hne). apply H2. tauto.
+        -- split; [assumption|]. split; [assumption|]. split; [assumption|]. intros Hb l'. rewrite (D Hb l').
+           destruct (gstate_eqb (gst (t0 l') g) Exclusive); [reflexivity|].
+           rewrite map_app. cbn [map fst]. rewrite <- app_assoc. reflexivity.
+      * assert (H1' : forall l' p, In (l', p) done -> gst (t1 l') g = Shared /\ p = gst (t0 l') g /\ p <> Exclusive).
+        { intros l' p Hin. rewrite (Ho l' (Hd l' p Hin)). apply H1. assumption. }
+        assert (H2' : forall l', ~ In l' (map fst done) -> gst (t1 l') g = gst (t0 l') g).
+        { intros l' Hn. destruct (lk_eq_dec l' l) as [->|Hne]; [rewrite (proj1 (Hf eq_refl)); apply H2; assumption|rewrite (Ho l' Hne); apply H2; assumption]. }
+        destruct (refuse_facts t1 g done t0 (b, t') Shared HT1 (nodup_app_l _ _ Hnd) (Hres _ _ _ _ H1') H2' H3' H) as [Hb [HT' Hall]].
+        cbn [fst snd] in *. split; [assumption|]. split; [intros; apply Hall|]. split; [intros _; exact Hall|]. intros ->. discriminate.
+Qed.
+Lemma downgrade_all_facts : forall ls t g, TInv t -> (forall l, In l ls -> gst (t l) g = Exclusive) -> NoDup ls ->
+  exists t', downgrade_all t g ls = Some t' /\ TInv t' /\ (forall l h, h <> g -> gst (t' l) h = gst (t l) h) /\
+             (forall l, gst (t' l) g = if in_dec lk_eq_dec l ls then Shared else gst (t l) g).
+Proof.
+  induction ls as [|l r IH]; intros t g HT Hx Hnd; cbn [downgrade_all].
+  - exists t. split; [reflexivity|]. split; [assumption|]. split; reflexivity.
+  - inversion Hnd as [|? ? Hnotin Hnd']; subst.
+    destruct (tryrlock_facts t l g HT) as [bb [t1 [E [HT1 [Ho [Hh [Ht Hf]]]]]]]. rewrite E.
+    assert (bb = true) as ->.
+    { destruct bb; [reflexivity|]. exfalso. destruct (Hf eq_refl) as [_ Hn]. apply Hn. intros h Hne.
+      rewrite (excl_alone (t l) g (HT l) (Hx l (or_introl eq_refl)) h Hne). discriminate. }
+    destruct (IH t1 g HT1) as [t2 [E2 [HT2 [Hoth Hg]]]]; [|assumption|].
+    { intros l' Hin. assert (l' <> l) by (intros ->; contradiction). rewrite (Ho l') by assumption. apply Hx. right; assumption. }
+    exists t2. split; [assumption|]. split; [assumption|]. split.
+    + intros l' h Hne. rewrite Hoth by assumption. destruct (lk_eq_dec l' l) as [->|Hn]; [apply Hh; assumption|rewrite Ho by assumption; reflexivity].
+    + intros l'. rewrite Hg. destruct (in_dec lk_eq_dec l' r) as [Hi|Hi], (in_dec lk_eq_dec l' (l :: r)) as [Hj|Hj]; try reflexivity.
+      * exfalso. apply Hj. right; assumption.
+      * destruct Hj as [<-|Hj]; [apply Ht; reflexivity|contradiction].
+      * assert (l' <> l) by (intros ->; apply Hj; left; reflexivity). rewrite (Ho l') by assumption. reflexivity.
+Qed.
+Lemma try_rlocks_facts : forall ls t g b t', TInv t -> NoDup ls -> try_rlocks t g ls = Some (b, t') ->
+  TInv t' /\ (forall l h, h <> g -> gst (t' l) h = gst (t l) h) /\
+  (b = false -> forall l h, gst (t' l) h = gst (t l) h) /\
+  (b = true -> forall l, gst (t' l) g = if in_dec lk_eq_dec l ls then Shared else gst (t l) g).
+Proof.
+  intros ls t g b t' HT Hnd H. unfold try_rlocks in H.
+  destruct (try_rlocks_from t g ls []) as [[b1 t1]|] eqn:E1; [|discriminate].
+  destruct (try_rlocks_from_facts ls t g [] t b1 t1 HT Hnd) as [A [B [C D]]]; auto. { intros l p []. }
+  destruct b1.
+  - specialize (D eq_refl). cbn [map app] in D.
+    set (ex := filter (fun l => gstate_eqb (gst (t l) g) Exclusive) ls) in *.
+    destruct (downgrade_all_facts ex t1 g A) as [t2 [E2 [HT2 [Hoth Hg]]]].
+    { intros l Hin. apply filter_In in Hin. destruct Hin as [_ Hx]. rewrite (D l), Hx. reflexivity. }
+    { apply NoDup_filter. assumption. }
+    rewrite E2 in H. inversion H; subst b t'. split; [assumption|]. split; [intros l h Hne; rewrite Hoth by assumption; apply B; assumption|].
+    split; [discriminate|]. intros _ l. rewrite Hg, (D l).
+    destruct (in_dec lk_eq_dec l ex) as [Hi|Hi].
+    + apply filter_In in Hi. destruct Hi as [Hi _]. destruct (in_dec lk_eq_dec l ls); [reflexivity|contradiction].
+    + destruct (gstate_eqb (gst (t l) g) Exclusive) eqn:Ex; [|reflexivity].
+      destruct (in_dec lk_eq_dec l ls) as [Hj|Hj]; [exfalso; apply Hi, filter_In; auto|apply gstate_eqb_eq in Ex; congruence].
+  - inversion H; subst b t'. split; [assumption|]. split; [assumption|]. split; [assumption|discriminate].
 Qed.
 Lemma try_rlocks_others : forall ls t g b t', TInv t -> NoDup ls -> try_rlocks t g ls = Some (b, t') ->
   TInv t' /\ forall l h, h <> g -> gst (t' l) h = gst (t l) h.
-Proof.
-  intros ls t g b t' HT Hnd H. unfold try_rlocks in H.
-  destruct (try_rlocks_from_facts ls t g [] t b t' HT Hnd) as [A [B _]]; auto. intros l p [].
-Qed.
+Proof. intros ls t g b t' HT Hnd H. destruct (try_rlocks_facts ls t g b t' HT Hnd H) as [A [B _]]. auto. Qed.
 Theorem try_rlocks_refused_changes_nothing : forall ls t g t', TInv t -> NoDup ls -> try_rlocks t g ls = Some (false, t') ->
   forall l h, gst (t' l) h = gst (t l) h.
-Proof.
-  intros ls t g t' HT Hnd H. unfold try_rlocks in H.
-  destruct (try_rlocks_from_facts ls t g [] t false t' HT Hnd) as [_ [_ C]]; auto. intros l p [].
-Qed.
+Proof. intros ls t g t' HT Hnd H. destruct (try_rlocks_facts ls t g false t' HT Hnd H) as [_ [_ [C _]]]. auto. Qed.
+(* a granted shared request leaves the requester with every lock of the range shared - also the ones it held
+   exclusively (downgrade) - and nothing else of its own changed *)
+Theorem try_rlocks_granted : forall ls t g t', TInv t -> NoDup ls -> try_rlocks t g ls = Some (true, t') ->
+  forall l, gst (t' l) g = if in_dec lk_eq_dec l ls then Shared else gst (t l) g.
+Proof. intros ls t g t' HT Hnd H. destruct (try_rlocks_facts ls t g true t' HT Hnd H) as [_ [_ [_ D]]]. auto. Qed.
 
 (* ---- CKPT gating ---- *)
 Lemma ckpt_gating_from : forall ls t g done t', TInv t -> try_locks_from t g ls done = Some (true, t') -> In LCkpt ls ->
@@ -465,7 +524,19 @@ Qed.
 Lemma try_rlocks_from_inv : forall ls t g done b t', TInv t -> try_rlocks_from t g ls done = Some (b, t') -> TInv t'.
 Proof.
   induction ls as [|l r IH]; intros t g done b t' HT H; cbn [try_rlocks_from] in H; [inversion H; subst; assumption|].
+  destruct (gstate_eqb (gst (t l) g) Exclusive); [eapply IH; eassumption|].
   destruct (tryrlock_facts t l g HT) as [bb [t1 [E [HT1 _]]]]. rewrite E in H. destruct bb; [eapply IH; eassumption|eapply refuse_inv; eassumption].
+Qed.
+Lemma downgrade_all_inv : forall ls t g t', TInv t -> downgrade_all t g ls = Some t' -> TInv t'.
+Proof.
+  induction ls as [|l r IH]; intros t g t' HT H; cbn [downgrade_all] in H; [inversion H; subst; assumption|].
+  destruct (tryrlock_facts t l g HT) as [bb [t1 [E [HT1 _]]]]. rewrite E in H. eapply IH; eassumption.
+Qed.
+Lemma try_rlocks_inv : forall ls t g b t', TInv t -> try_rlocks t g ls = Some (b, t') -> TInv t'.
+Proof.
+  intros ls t g b t' HT H. unfold try_rlocks in H. destruct (try_rlocks_from t g ls []) as [[b1 t1]|] eqn:E1; [|discriminate].
+  pose proof (try_rlocks_from_inv _ _ _ _ _ _ HT E1) as HT1. destruct b1; [|inversion H; subst; assumption].
+  destruct (downgrade_all t1 g _) as [t2|] eqn:E2; [|discriminate]. inversion H; subst. eapply downgrade_all_inv; eassumption.
 Qed.
 
 (* every table reachable through the API keeps the per-lock invariant *)
@@ -473,7 +544,7 @@ Lemma lstep_inv t o c t' : TInv t -> lstep t o = Some (c, t') -> TInv t'.
 Proof.
   intros HT H. destruct o; cbn [lstep] in H.
   - destruct (try_locks t g (map lk_of ls)) as [[b t1]|] eqn:E; [|discriminate]. inversion H; subst. apply (try_locks_from_inv _ _ _ _ _ _ HT E).
-  - destruct (try_rlocks t g (map lk_of ls)) as [[b t1]|] eqn:E; [|discriminate]. inversion H; subst. apply (try_rlocks_from_inv _ _ _ _ _ _ HT E).
+  - destruct (try_rlocks t g (map lk_of ls)) as [[b t1]|] eqn:E; [|discriminate]. inversion H; subst. apply (try_rlocks_inv _ _ _ _ _ HT E).
   - destruct (unlock_all_facts (map lk_of ls) t g HT) as [t2 [E2 [HT2 _]]]. rewrite E2 in H. inversion H; subst. assumption.
   - destruct (can_lock t g (map lk_of ls)) as [[b m]|]; inversion H; subst; assumption.
   - destruct (can_rlock t g (map lk_of ls)) as [b|]; inversion H; subst; assumption.
@@ -502,3 +573,104 @@ Qed.
 Theorem write_script_is_generated : forall wal,
   write_script wal = acts_of (gen_write_common ++ (if wal then gen_write_wal else gen_write_rollback)).
 Proof. intros [|]; reflexivity. Qed.
+
+(* ---- requests over several locks while the other owners keep going ---- *)
+Definition others_only (g : gid) (sched : list (list prim)) : Prop := forall ps p, In ps sched -> In p ps -> prim_owner p <> g.
+Lemma others_only_tl g sched : others_only g sched -> others_only g (tl sched).
+Proof. intros H ps p Hps Hp. destruct sched as [|x r]; [destruct Hps|]. apply (H ps p); [right; assumption|assumption]. Qed.
+Lemma others_only_hd g sched p : others_only g sched -> In p (hd [] sched) -> prim_owner p <> g.
+Proof. intros H Hp. destruct sched as [|x r]; [destruct Hp|]. apply (H x p); [left; reflexivity|assumption]. Qed.
+
+(* what another owner does leaves one's own guards alone *)
+Lemma prim_step_keeps t p g t' : TInv t -> prim_owner p <> g -> prim_step t p = Some t' ->
+  TInv t' /\ forall l, gst (t' l) g = gst (t l) g.
+Proof.
+  intros HT Hne H. destruct p as [h l|h l|h l]; cbn [prim_owner prim_step] in *.
+  - destruct (trylock_facts t l h HT) as [b [t1 [E [HT1 [Ho [Hh _]]]]]]. rewrite E in H. inversion H; subst t1.
+    split; [assumption|]. intros l'. destruct (lk_eq_dec l' l) as [->|Hn]; [apply Hh; congruence|rewrite Ho by assumption; reflexivity].
+  - destruct (tryrlock_facts t l h HT) as [b [t1 [E [HT1 [Ho [Hh _]]]]]]. rewrite E in H. inversion H; subst t1.
+    split; [assumption|]. intros l'. destruct (lk_eq_dec l' l) as [->|Hn]; [apply Hh; congruence|rewrite Ho by assumption; reflexivity].
+  - destruct (unlock_facts t l h HT) as [t1 [E [HT1 [Ho [Hh _]]]]]. rewrite E in H. inversion H; subst t1.
+    split; [assumption|]. intros l'. destruct (lk_eq_dec l' l) as [->|Hn]; [apply Hh; congruence|rewrite Ho by assumption; reflexivity].
+Qed.
+Lemma run_prims_keeps : forall ps t g t', TInv t -> (forall p, In p ps -> prim_owner p <> g) -> run_prims t ps = Some t' ->
+  TInv t' /\ forall l, gst (t' l) g = gst (t l) g.
+Proof.
+  induction ps as [|p r IH]; intros t g t' HT Ho H; cbn [run_prims] in H; [inversion H; subst; auto|].
+  destruct (prim_step t p) as [t1|] eqn:E; [|discriminate].
+  destruct (prim_step_keeps t p g t1 HT (Ho p (or_introl eq_refl)) E) as [HT1 K1].
+  destruct (IH t1 g t' HT1 (fun q Hq => Ho q (or_intror Hq)) H) as [HT' K']. split; [assumption|]. intros l. rewrite K', K1. reflexivity.
+Qed.
+
+(* a rollback that only has to release (no lock of the list was held exclusively before) puts the requester's guards
+   back whatever the others have done meanwhile and do in between *)
+Lemma restore_il_facts : forall done t g sched t', TInv t -> NoDup (map fst done) -> others_only g sched ->
+  (forall l p, In (l, p) done -> gst (t l) g = Shared /\ p <> Exclusive) ->
+  restore_il t g done sched = Some t' ->
+  TInv t' /\ (forall l p, In (l, p) done -> gst (t' l) g = p) /\ (forall l, ~ In l (map fst done) -> gst (t' l) g = gst (t l) g).
+Proof.
+  induction done as [|[l p] r IH]; intros t g sched t' HT Hnd Hs H1 H; cbn [restore_il] in H.
+  - inversion H; subst. split; [assumption|]. split; [intros l p []|reflexivity].
+  - cbn [map fst] in Hnd. inversion Hnd as [|? ? Hnotin Hnd']; subst.
+    destruct (run_prims t (hd [] sched)) as [ta|] eqn:Ea; [|discriminate].
+    destruct (run_prims_keeps _ t g ta HT (fun q Hq => others_only_hd g sched q Hs Hq) Ea) as [HTa Ka].
+    destruct (restore_one ta g l p) as [t1|] eqn:E1; [|discriminate].
+    destruct (H1 l p (or_introl eq_refl)) as [Hsh Hpx].
+    assert (TInv t1 /\ gst (t1 l) g = p /\ forall l', l' <> l -> t1 l' = ta l') as [HT1 [Hp1 Ho1]].
+    { unfold restore_one in E1. destruct (gstate_eqb (gst (ta l) g) p) eqn:Eq.
+      - apply gstate_eqb_eq in Eq. inversion E1; subst t1. auto.
+      - destruct p; [|exfalso; rewrite Ka, Hsh in Eq; discriminate|congruence].
+        destruct (unlock_facts ta l g HTa) as [t2 [E2 [HT2 [Ho2 [_ Hu2]]]]]. rewrite E2 in E1. inversion E1; subst t2. auto. }
+    destruct (IH t1 g (tl sched) t' HT1 Hnd' (others_only_tl g sched Hs)) as [HT' [Hin Hnin]]; [|assumption|].
+    { intros l' p' Hin. assert (l' <> l) as Hne. { intros ->. apply Hnotin. apply in_map_iff. exists (l, p'). auto. }
+      rewrite (Ho1 l' Hne), Ka. apply H1. right; assumption. }
+    split; [assumption|]. split.
+    + intros l' p' [Heq|Hin']; [injection Heq as <- <-; rewrite (Hnin l Hnotin); exact Hp1|apply Hin; assumption].
+    + intros l' Hn. cbn [map fst In] in Hn. rewrite Hnin by tauto. rewrite Ho1 by (intros ->; tauto). apply Ka.
+Qed.
+
+Lemma try_rlocks_il_facts : forall ls t g sched done t0 t',
+  TInv t -> NoDup (map fst done ++ ls) -> others_only g sched ->
+  (forall l p, In (l, p) done -> gst (t l) g = Shared /\ p = gst (t0 l) g /\ p <> Exclusive) ->
+  (forall l, ~ In l (map fst done) -> gst (t l) g = gst (t0 l) g) ->
+  try_rlocks_il true t g ls sched done = Some (false, t') ->
+  TInv t' /\ forall l, gst (t' l) g = gst (t0 l) g.
+Proof.
+  induction ls as [|l r IH]; intros t g sched done t0 t' HT Hnd Hs H1 H2 H; cbn [try_rlocks_il] in H; [discriminate|].
+  destruct (run_prims t (hd [] sched)) as [ta|] eqn:Ea; [|discriminate].
+  destruct (run_prims_keeps _ t g ta HT (fun q Hq => others_only_hd g sched q Hs Hq) Ea) as [HTa Ka].
+  assert (H1a : forall l' p, In (l', p) done -> gst (ta l') g = Shared /\ p = gst (t0 l') g /\ p <> Exclusive) by (intros l' p Hin; rewrite Ka; apply H1; assumption).
+  assert (H2a : forall l', ~ In l' (map fst done) -> gst (ta l') g = gst (t0 l') g) by (intros l' Hn; rewrite Ka; apply H2; assumption).
+  assert (Hl : ~ In l (map fst done)) by (intros Hi; apply (nodup_app_disj _ _ l Hnd Hi); left; reflexivity).
+  assert (Hd : forall l' p, In (l', p) done -> l' <> l).
+  { intros l' p Hin ->. apply Hl. apply in_map_iff. exists (l, p). auto. }
+  cbn [andb] in H. destruct (gstate_eqb (gst (ta l) g) Exclusive) eqn:Ex.
+  - apply (IH ta g (tl sched) done t0 t' HTa (NoDup_remove_1 _ _ _ Hnd) (others_only_tl g sched Hs) H1a H2a H).
+  - assert (Hnx : gst (ta l) g <> Exclusive) by (intros E; apply gstate_eqb_eq in E; congruence).
+    destruct (tryrlock_facts ta l g HTa) as [bb [t1 [E [HT1 [Ho [Hh [Ht Hf]]]]]]]. rewrite E in H. destruct bb.
+    + apply (IH t1 g (tl sched) (done ++ [(l, gst (ta l) g)]) t0 t' HT1); try assumption.
+      * rewrite map_app. cbn [map fst]. rewrite <- app_assoc. exact Hnd.
+      * apply others_only_tl. assumption.
+      * intros l' p Hin. apply in_app_iff in Hin. destruct Hin as [Hin|[Heq|[]]].
+        -- rewrite (Ho l' (Hd l' p Hin)). apply H1a. assumption.
+        -- inversion Heq; subst. split; [apply Ht; reflexivity|]. split; [apply H2a; assumption|assumption].
+      * intros l' Hn. rewrite map_app, in_app_iff in Hn. cbn [map fst In] in Hn.
+        assert (l' <> l) as Hne by (intros ->; tauto). rewrite (Ho l' Hne). apply H2a. tauto.
+    + destruct (restore_il t1 g done (tl sched)) as [t2|] eqn:E2; [|discriminate]. inversion H; subst t2.
+      destruct (restore_il_facts done t1 g (tl sched) t' HT1 (nodup_app_l _ _ Hnd) (others_only_tl g sched Hs)) as [HT' [Hin Hnin]]; [|assumption|].
+      { intros l' p Hi. rewrite (Ho l' (Hd l' p Hi)). destruct (H1a l' p Hi) as [A [_ C]]. auto. }
+      split; [assumption|]. intros l'. destruct (in_dec lk_eq_dec l' (map fst done)) as [Hi|Hi].
+      * apply in_map_iff in Hi. destruct Hi as [[l'' p] [El Hi]]. cbn in El. subst l''. rewrite (Hin l' p Hi). apply (H1a l' p Hi).
+      * rewrite (Hnin l' Hi). destruct (lk_eq_dec l' l) as [->|Hne]; [rewrite (proj1 (Hf eq_refl)); apply H2a; assumption|rewrite (Ho l' Hne); apply H2a; assumption].
+Qed.
+
+(* C12, "a failed attempt changes nothing", for a shared request over a range under ANY interleaving with the other
+   owners' operations: the requester holds afterwards exactly what it held before *)
+Theorem shared_range_refused_keeps_own_locks : forall ls t g sched t',
+  TInv t -> NoDup ls -> others_only g sched ->
+  try_rlocks_il true t g ls sched [] = Some (false, t') ->
+  TInv t' /\ forall l, gst (t' l) g = gst (t l) g.
+Proof.
+  intros ls t g sched t' HT Hnd Hs H. apply (try_rlocks_il_facts ls t g sched [] t t'); auto. intros l p [].
+Qed.
+
